@@ -1,8 +1,9 @@
 #!/bin/sh
-# tools/round2.sh <ID> <C|D> : confirm a second-round seeded change, run the property's quick check against it, record the outcome
-P=$1; M=$2; D=/tmp/mut2/$P-out/$M
+# tools/round2.sh <ID> <letter> : confirm a seeded change of a later round (directory ${MUT:-/tmp/mut2}/<ID>-out/<letter>), run the
+# property's quick check against it, print the outcome
+P=$1; M=$2; D=${MUT:-/tmp/mut2}/$P-out/$M
 [ -f $D/patch.diff ] || { echo "$P-$M: no patch"; exit 1; }
-tools/confirm_mutant.sh $D r2-$P-$M > /dev/null 2>&1
+tools/confirm_mutant.sh $D r-$P-$M > /dev/null 2>&1
 C=$(cat $D/confirm.txt 2>/dev/null)
 echo "== $P-$M confirm: $C"
 tools/mutest.sh $D/patch.diff $P 2>&1 | grep -E "^VIOLATION|^#|violation\(s\)|apply" | cut -c1-260 | head -6
